@@ -815,7 +815,9 @@ func (m *Memory) checkGc() {
 			i := 0
 
 			// go 1 by 1 and delete stuff
-			for id := m.nextId.Load() - uint64(m.Cfg.MaxRecords); id > 0; id-- {
+			// keep the newest MaxRecords (the last ID is nextId-1)
+			last := m.nextId.Load() - 1
+			for id := last - uint64(m.Cfg.MaxRecords); id > 0; id-- {
 				i++
 
 				// time
